@@ -64,6 +64,13 @@ def main():
         verify = open(os.path.join(p, "verify.log")).read() if os.path.exists(os.path.join(p, "verify.log")) else ""
         checks = open(os.path.join(p, "checks.log")).read() if os.path.exists(os.path.join(p, "checks.log")) else ""
         det, quiet, classes = [], [], {}
+        # later, targeted re-evaluations (after a strengthening of the framework) override the sweep
+        import glob
+        extra = ""
+        for f in sorted(glob.glob(os.path.join(p, "checks_*after*.log")) + glob.glob(os.path.join(p, "checks_*with_stranger.log"))):
+            extra += open(f).read()
+        later = {m.group(1) for m in re.finditer(r"^(C\d\d) exit=[01]", extra, re.M)}
+        checks = "\n".join(l for l in checks.splitlines() if l[:3] not in later) + "\n" + extra
         for line in checks.splitlines():
             m = re.match(r"(C\d\d) exit=(\d+) violations_reported=(\d+).*?(?:class=\[([^\]]*)\])?", line)
             if not m: continue
